@@ -62,7 +62,8 @@ def _case2(draw):
             ops.append([kind])
     # plain Python values as binding values, the falsy ones included (0 and '' are values like any other)
     plain = (not wrap) and draw(st.booleans())
-    return {"keys": keys0, "nvals": nvals, "wrap": wrap, "plain": plain, "extra_key": extra, "ops": ops}
+    return {"keys": keys0, "nvals": nvals, "wrap": wrap, "plain": plain, "extra_key": extra, "ops": ops,
+            "caller_reuses_its_dict": draw(st.sampled_from([None, None, "clear", "overwrite"]))}
 
 
 def strategy(tier):
@@ -136,7 +137,7 @@ def check(case) -> Outcome:
     keys = list(case["keys"])
     cache = IndexedCache(list(keys))
     model = []          # list of (binding: dict key->value index, output)
-    classes = ["wrapped" if wrap else ("plain_values_incl_falsy" if case.get("plain") else "raw"), f"keys{len(keys)}"]
+    classes = (["caller_mutates_the_dict_it_passed"] if case.get("caller_reuses_its_dict") else []) + ["wrapped" if wrap else ("plain_values_incl_falsy" if case.get("plain") else "raw"), f"keys{len(keys)}"]
     nontrivial = False
     n_out = 0
     lookups_compared = 0
@@ -185,7 +186,17 @@ def check(case) -> Outcome:
             b = {int(k): v for k, v in op[1].items()}
             out = f"o{n_out}"
             n_out += 1
-            cache.insert({k: val(v) for k, v in b.items()}, out)
+            passed = {k: val(v) for k, v in b.items()}
+            cache.insert(passed, out)
+            if case.get("caller_reuses_its_dict"):
+                # the caller goes on using the dict it passed (the "one binding dict updated in a loop" idiom): what the
+                # cache stored must not be an alias of it
+                how = case["caller_reuses_its_dict"]
+                if how == "clear":
+                    passed.clear()
+                else:
+                    for k_ in list(passed):
+                        passed[k_] = val(STRANGER)
             model = [(mb, mo) if mb != b else (mb, out) for mb, mo in model]
             if not any(mb == b for mb, _ in model):
                 model.append((b, out))
